@@ -6,10 +6,11 @@ from harness.common.rng import Rng
 from harness.common import sim
 
 PROP = "C48"
-LEAN_MODULES = ["LunaVerif.Props.C48", "LunaVerif.Props.C48Desc"]
+LEAN_MODULES = ["LunaVerif.Props.C48", "LunaVerif.Props.C48Desc", "LunaVerif.Props.C48Live"]
 DRIVER = "Driver/C48.lean"
 REQUIRED_THEOREMS = ["ss_setup_reported_iff", "ss_setup_fields_exact", "ss_descriptor_prefix",
-                     "ss_descriptor_complete", "ss_unknown_stalls"]
+                     "ss_descriptor_complete", "ss_unknown_stalls", "ss_descriptor_finishes",
+                     "ss_descriptor_delivers_all", "ss_descriptor_framing", "ss_descriptor_framing_complete"]
 RULE = ("setup decoder: scripts of data packets (setup flag, 0..16 payload bytes with 4/8/12 emphasised, word gaps, "
         "aborted packets, verdict orderings good / bad / good-then-bad / bad-then-good) + unstructured random cycles "
         "(co-simulation only); descriptor handler: random descriptor collections (1..7 descriptors, lengths around "
@@ -25,11 +26,7 @@ ASSUMPTIONS = [
     "a one-cycle strobe given while the handler is quiescent (all generators idle, tx register empty); "
     "descriptors are non-empty and shorter than 65536 bytes, (type, index) keys are distinct",
 ]
-PARTIAL = ("descriptor handler: safety and exactness are proved (delivered ++ pending = first min(wLength,len) bytes at "
-           "every cycle under every tx.ready pattern; tx_length exact; equality once the handler is quiescent again); "
-           "that quiescence is reached after finitely many tx.ready cycles (liveness) and the first/last framing flags "
-           "are checked by co-simulation and the monitor only. Setup decoder: full under the stated stream "
-           "well-formedness assumption.")
+PARTIAL = ""
 
 LENS = [1, 2, 3, 4, 5, 6, 7, 8, 9, 11, 12, 13, 15, 16, 17, 18, 20, 31, 32, 33, 63, 64, 65]
 
